@@ -127,22 +127,26 @@ def check_c18(ctx):
         ctx.nontrivial.add("".join(h)[:400])
     if all_hs:
         ctx.add_sample([json.loads(x) for x in all_hs[0][:12]])
-    # self-test of the binding: flip one boolean reply of an accepted history, TLC must reject it
-    if all_hs and not ctx.violations:
-        h = list(all_hs[0])
-        for k, line in enumerate(h):
-            e = json.loads(line)
-            if e["ev"] == "ret" and isinstance(e["r"], bool):
-                e["r"] = not e["r"]
-                h[k] = json.dumps(e) + "\n"
-                break
-        sp = os.path.join(ctx.work, "selftest.ndjson")
-        with open(sp, "w") as o:
-            o.writelines(h)
-        ok, _ = lin_validate(ctx, sp, "selftest")
-        ctx.notes["selftest_corrupted_reply_rejected"] = not ok
-        if ok:
-            raise InfraError("self-test failed: a history with a flipped reply was accepted by Trace_Concurrent")
+    # self-test of the binding: a fixed sequential history (one goroutine: add, contains, remove, contains) is accepted,
+    # and the same history with one reply flipped is rejected. (A flipped reply inside a recorded concurrent history may
+    # still be linearizable, so the self-test does not use those.)
+    if not ctx.violations:
+        atom = {"p": "p", "a": [["n", 1]]}
+        def hist(replies):
+            ev = [dict(ev="reset", id="selftest", procs=["g0"], base="simple")]
+            for (k, r) in zip(("add", "has", "rm", "has"), replies):
+                ev.append(dict(ev="call", p="g0", op=dict(k=k, a=atom)))
+                ev.append(dict(ev="ret", p="g0", r=r))
+            return [json.dumps(e) + "\n" for e in ev]
+        for name, replies, want in (("selftest_ok", (True, True, True, False), True), ("selftest_flipped", (True, False, True, False), False)):
+            sp = os.path.join(ctx.work, name + ".ndjson")
+            with open(sp, "w") as o:
+                o.writelines(hist(replies))
+            ok, _ = lin_validate(ctx, sp, name)
+            if ok != want:
+                raise InfraError("self-test failed: the %s sequential history was %s by Trace_Concurrent" % (
+                    "correct" if want else "corrupted", "accepted" if ok else "rejected"))
+        ctx.notes["selftest_corrupted_reply_rejected"] = True
     # (b) parallel parse -> analyse -> evaluate pipelines on disjoint stores under the race detector;
     #     every pipeline's result must equal the TLC model (hence the result of running alone)
     kinds = {"MODEL_MISMATCH", "EVAL_FAILURE", "INCONSISTENT"}
@@ -151,7 +155,7 @@ def check_c18(ctx):
         cp = os.path.join(ctx.work, tag + ".ndjson")
         ctx.gen_cases(module, cfg, cp, simulate=dict(num=num, depth=8), idprefix=tag + "-", extra_fields=dict(family=fam) if fam else None)
         rp = os.path.join(ctx.work, "res_%s.ndjson" % tag)
-        args = ["eval", "--in", cp, "--out", rp, "--mode", "all", "--workers", "16"] + (["--family", fam] if fam else [])
+        args = ["eval", "--in", cp, "--out", rp, "--mode", "all", "--workers", "16", "--parsemix"] + (["--family", fam] if fam else [])
         if run_race(ctx, race, args, "parallel pipelines (%s)" % tag):
             val = ctx.validate(rp)
             results = {r["id"]: r for r in read_ndjson(rp)}
